@@ -145,6 +145,10 @@ func NewEng(t *rapid.T, cfg EngCfg) *Eng {
 		// strategy treats alike when granting; the strategies differ for the dotted names a caller may require
 		e.scopeStrategy = rapid.SampledFrom([]string{"wildcard", "wildcard", "hierarchic", "hierarchic", "exact"}).Draw(t, "scopeStrategy")
 	}
+	if cfg.Prop == "C05" {
+		// "... and scope strategy": a registration covers exactly the plain names it lists under each of them
+		e.scopeStrategy = rapid.SampledFrom([]string{"", "wildcard", "hierarchic", "hierarchic", "exact"}).Draw(t, "scopeStrategy")
+	}
 	e.w = h.NewWorld(h.Spec{Store: store, JWTAccess: jwt, FositeSession: fositeSession, LegacyRevocationHandler: legacyRevoker, ScopeStrategy: e.scopeStrategy, RefreshScopes: refreshScopeSets[e.rsMode], Mutate: func(c *fosite.Config) {
 		c.AuthorizeCodeLifespan = e.codeLife
 		c.AccessTokenLifespan = e.atLife
@@ -189,6 +193,9 @@ func NewEng(t *rapid.T, cfg EngCfg) *Eng {
 	e.w.AddUser("peter", "pw")
 	e.label(fmt.Sprintf("store=%s", store))
 	e.label(fmt.Sprintf("jwt=%v", jwt))
+	if e.w.NoOIDC() {
+		e.label("session-type=oauth2.JWTSession")
+	}
 	e.label(fmt.Sprintf("refreshScopes=%d", e.rsMode))
 	return e
 }
